@@ -13,8 +13,11 @@ package main
 //	assign        x = e, x += e, x++ / x--
 //	define        x := e, var x = e
 //	decl          var x T (no value), other declarations
-//	call          an expression statement that is a call         recv   `<-c` as a statement
+//	call          a call statement whose callee is a plain name: `f(i)`, `close(in)`, a function literal
+//	mcall         a call statement whose callee is selected: `wg.Wait()`, `g.m.RLock()`, `pkg.F()`
+//	recv          `<-c` as a statement
 //	send          c <- v                                         expr   any other expression statement
+//	              (the called function of go / defer statements is not distinguished)
 //	return break continue goto fallthrough
 //	go defer      (the called function literal's body, if any, is nested)
 //	if{…}else{…}  for{…} (with a condition or a range-less header)  forever{…} (`for {`)  range{…}
@@ -111,6 +114,9 @@ func pskelStmt(c *Ctx, s ast.Stmt, depth int) []string {
 		switch e := x.X.(type) {
 		case *ast.CallExpr:
 			kind = "call"
+			if _, ok := e.Fun.(*ast.SelectorExpr); ok {
+				kind = "mcall"
+			}
 		case *ast.UnaryExpr:
 			if e.Op == token.ARROW {
 				kind = "recv"
